@@ -1,0 +1,121 @@
+// Verification contracts (comment-only, compiled only with the "verif" build tag; read by /verif/govc).
+
+//go:build verif
+// +build verif
+
+package ucon
+
+// Contracts for consensus.go (header verification) — property C01:
+// "A block header is accepted only with a protocol-sized quorum of valid precommits".
+//
+// verifyVotes is verified with a ghost set of counted signers and a ghost weight:
+//   * a vote adds weight only for a signer not counted before (duplicated / replayed votes add nothing),
+//   * only after VrfVerifySortition returned (true, nil) for the signer's key and stake in the look-back set, the header's
+//     seed, round index, the step being verified and exactly the seat count that is added,
+//   * success implies the counted weight reaches the quorum of the threshold, and (BLS) the aggregate signature verified.
+// verifyConsensusFieldMain: success implies the proposer credential verified and the precommit votes verified for this
+// header's hash; the committee sizes passed down must be the protocol's (cp.*), not the header's.
+
+//@ ghost var c01Counted: set[common.Address]
+//@ ghost var c01Weight: int
+//@ ghost var c01SortOK: bool
+//@ ghost var c01Signer: int
+//@ ghost var c01AggOK: bool
+
+//@ spec func c01Entitled(v: *state.Validator) bool =
+//@     (v.Role == params.RoleChancellor || v.Role == params.RoleSenator) && v.Status == params.ValidatorOnline
+
+//@ effectfree github.com/youchainhq/go-youchain/crypto.PubkeyToAddress github.com/youchainhq/go-youchain/crypto/vrf/secp256k1.NewVRFVerifier
+//@ effectfree (*math/big.Int).Bytes github.com/youchainhq/go-youchain/consensus/ucon.uint32ToBytes github.com/youchainhq/go-youchain/consensus/ucon.GetSignaturePublicKey
+//@ effectfree (*github.com/youchainhq/go-youchain/core/state.Validator).MainAddress (github.com/youchainhq/go-youchain/common.Address).String
+//@ effectfree (*github.com/youchainhq/go-youchain/core/state.ValidatorsStat).GetStakeByKind
+//@ effectfree (github.com/youchainhq/go-youchain/core/state.ValidatorReader).GetValidatorsStat (github.com/youchainhq/go-youchain/core/state.ValidatorReader).GetValidators
+//@ effectfree (github.com/youchainhq/go-youchain/core/state.ValidatorReader).GetValidatorByMainAddr
+
+//@ spec func c01Quorum(threshold: int, isPos: bool) int
+//@ func OverThreshold props C01
+//@ nobody
+//@ pure
+//@ ensures result == (count >= c01Quorum(threshold, isPos))
+
+//@ func VrfVerifySortition props C01
+//@ nobody
+//@ pure
+
+//@ func (*BlsVerifier).RecoverSignerInfo props C01
+//@ nobody
+//@ pure
+
+//@ func (github.com/youchainhq/go-youchain/bls.BlsManager).VerifyAggregatedOne props C01
+//@ trusted
+//@ pure
+//@ func (github.com/youchainhq/go-youchain/bls.BlsManager).DecSignature props C01
+//@ trusted
+//@ pure
+
+//@ func (*Server).verifyVotes props C01
+//@ opt abstract-slices
+//@ requires [nonnil] s != nil && cd != nil && cd.cp != nil
+//@ modifies all, c01Counted, c01Weight, c01SortOK, c01Signer, c01AggOK
+//@ ghost at entry: c01Weight := 0
+//@ ghost at entry: c01Counted := emptyset(common.Address)
+//@ ghost at entry: c01AggOK := false
+//@ ghost at entry: c01SortOK := false
+//@ loop rangeindex invariant [weight] count == c01Weight
+//@ loop rangeindex invariant [counted-set] forall a: common.Address :: { c01Counted[a] } staData[a] == c01Counted[a]
+//@ loop rangeindex invariant [params-fixed] cd.cp == old(cd.cp) && cd.cp.EnableBls == old(cd.cp.EnableBls) && cd.validatorThreshold == old(cd.validatorThreshold) && threshold == old(cd.validatorThreshold)
+//@ ghost after call (*BlsVerifier).RecoverSignerInfo: c01Signer := ret0
+//@ assert before call VrfVerifySortition: [credential-binds-header]
+//@        a1 == cd.seed && a2 == cd.roundIndex && a3 == step && a4 == v.Proof && a5 == v.Votes && a6 == threshold && a7 == validator.Stake && a8 == totalStake
+//@ assert before call VrfVerifySortition: [signer-from-lookback-set] cd.cp.EnableBls ==> validator == c01Signer
+//@ ghost after call VrfVerifySortition: c01SortOK := ret0 && ret1 == nil
+//@ assert before mapupdate: [distinct-signer] !c01Counted[key]
+//@ assert before mapupdate: [sortition-verified] c01SortOK
+//@ ghost after mapupdate: c01Counted := store(c01Counted, key, true)
+//@ ghost after mapupdate: c01Weight := wrap32(c01Weight + v.Votes)
+//@ ghost after mapupdate: c01SortOK := false
+//@ ghost after call (bls.BlsManager).VerifyAggregatedOne: c01AggOK := ret == nil
+//@ ensures [quorum] result == nil ==> c01Weight >= c01Quorum(old(cd.validatorThreshold), isPos)
+//@ ensures [aggregate-verified] result == nil && old(cd.cp.EnableBls) ==> c01AggOK
+//@ assert before mapupdate: [entitled-voter] validator != nil && c01Entitled(validator)
+
+// ---------------------------------------------------------------------------------------------------------
+//@ ghost var c01PrioOK: bool
+//@ ghost var c01VotesOK: bool
+
+//@ func VrfVerifyPriority props C01
+//@ nobody
+//@ pure
+//@ func GetConsensusDataFromHeader props C01
+//@ nobody
+//@ pure
+//@ func ExtractUconValidators props C01
+//@ nobody
+//@ pure
+//@ func (*BlockConsensusData).GetPublicKey props C01
+//@ nobody
+//@ pure
+//@ effectfree (*github.com/youchainhq/go-youchain/core/types.Header).Hash (github.com/youchainhq/go-youchain/common.Hash).Bytes (github.com/youchainhq/go-youchain/common.Hash).String
+
+//@ func (*Server).verifyConsensusFieldMain props C01
+//@ opt abstract-slices
+//@ requires [nonnil] s != nil && cp != nil && header != nil && header.Number != nil
+//@ modifies all, c01PrioOK, c01VotesOK, c01Counted, c01Weight, c01SortOK, c01Signer, c01AggOK
+//@ ghost at entry: c01PrioOK := false
+//@ ghost at entry: c01VotesOK := false
+//@ assert before call VrfVerifyPriority: [proposer-credential-binds-header]
+//@        a1 == seedCon.Seed && a2 == consensusData.RoundIndex && a3 == UConStepProposal && a4 == consensusData.SortitionProof &&
+//@        a5 == consensusData.Priority && a6 == consensusData.SubUsers && a8 == validator.Stake
+//@ assert before call VrfVerifyPriority: [protocol-proposer-threshold] a7 == cp.ProposerThreshold
+//@ ghost after call VrfVerifyPriority: c01PrioOK := ret0 && ret1 == nil
+//@ assert before call (*Server).verifyVotes#1: [precommits-for-this-header]
+//@        a1.lbVld == vldReader && a1.seed == seedCon.Seed && a1.roundIndex == ucValidators.RoundIndex && a1.round == consensusData.Round &&
+//@        a2 == ucValidators.ChamberCommitters && a3 == ucValidators.SCAggrSig && a4 == Precommit && a5 == params.KindChamber && a6
+//@ assert before call (*Server).verifyVotes#1: [protocol-committee-size] a1.validatorThreshold == cp.ValidatorThreshold && a1.cp == cp
+//@ ghost after call (*Server).verifyVotes#1: c01VotesOK := ret == nil
+//@ ensures [accept-implies-proposer-verified] result == nil ==> c01PrioOK
+//@ ensures [accept-implies-precommit-quorum] result == nil ==> c01VotesOK
+//@ ghost var c01CertOK: bool
+//@ assert before call (*Server).verifyVotes#2: [certificates-for-this-header]
+//@        a1.lbVld == certVldReader && a1.seed == certCon.Seed && a2 == ucCertificates.ChamberCerts && a3 == ucCertificates.CCAggrSig &&
+//@        a4 == Certificate && a5 == params.KindChamber && !a6 && a1.validatorThreshold == certCon.CertValThreshold
